@@ -159,15 +159,18 @@ def updateOptsOf (i : Json) : UpdateOpts :=
     addAka := getStrList i "addAka", addServices := (getArr i "addServices").map docServiceOf,
     addKeys := (getArr i "addKeys").map docKeyOf }
 
-/-- do the hypotheses of `Props.C08.update/deactivate/recover_built_accepted_unwindowed` hold for
-    this step? `none`: the step is not of that shape (create, a window is set, builder refused) -/
+/-- do the hypotheses of `Props.C08.update/deactivate/recover_built_accepted_windowed` (which
+    contain the `…_unwindowed` ones: no window is the window 0, 0) hold for this step? `none`: the
+    step is not of that shape (create, a bound of 2^53 or beyond in magnitude) -/
 def signedPremises (cfg : Protocol) (orc : Oracles) (tab : List Json) (s : Json) : Option Bool :=
   let i := s.getD "info"
   let op := getStr s "op"
   let via := getStr s "via"
   if op = "create" then none
-  else if getInt i "anchorFrom" ≠ 0 ∨ getInt i "anchorUntil" ≠ 0 then none
+  else if ¬ ((getInt i "anchorFrom").natAbs < 2 ^ 53 ∧ (getInt i "anchorUntil").natAbs < 2 ^ 53) then none
   else
+    let af := getInt i "anchorFrom"
+    let au := getInt i "anchorUntil"
     let code := getNat i "code"
     let signerJ := i.get? "signer"
     let key : Option Jwk := if via = "client" then jwkOf (signerJ.bind (·.get? "jwk")) else jwkOf (i.get? "key")
@@ -184,7 +187,7 @@ def signedPremises (cfg : Protocol) (orc : Oracles) (tab : List Json) (s : Json)
           else getStr i "reveal"
         let revealOK := Parser.multihashOK cfg reveal &&
           ((cfg.multihashAlgorithms.head?.bind fun c => Hashing.revealValue hashFam k.toJson c) == some reveal)
-        let time := orc.anchorTimeOK 0 (Parser.anchorUntil cfg 0 0)
+        let time := orc.anchorTimeOK af (Parser.anchorUntil cfg af au)
         if op = "deactivate" then some (fits && keyOK && revealOK && time)
         else
           -- update / recover: the delta must validate and hash under the protocol's algorithm
